@@ -167,11 +167,25 @@ def generator_oracle(rng, rounds):
             if H.num_nodes != ns + nc or any(not set(x) <= set(H.nodes) for x in members(H)):
                 bad("star_clique", (ns, nc, dmax), "wrong node set")
         npet, ncore, mpet = rng.randint(1, 3), rng.randint(0, 2), rng.randint(2, 4)
-        if mpet > ncore:
-            H = xgi.sunflower(npet, ncore, mpet)
-            ms = members(H)
-            if len(ms) != npet or any(len(x) != mpet for x in ms) or \
-               (npet > 1 and len(set.intersection(*map(set, ms))) != ncore):
+        if rng.random() < 0.25:
+            mpet = max(ncore, 1)          # the boundary the signature admits: edge size = core size (only m < c is refused)
+        if mpet >= ncore:
+            import signal
+            def _alarm(signum, frame):
+                raise TimeoutError("no result after 5 s")
+            old_handler = signal.signal(signal.SIGALRM, _alarm)
+            signal.alarm(5)
+            try:
+                H = xgi.sunflower(npet, ncore, mpet)
+                ms = members(H)
+            except TimeoutError as e:
+                H, ms = None, None
+                bad("sunflower", (npet, ncore, mpet), f"does not terminate ({e})")
+            finally:
+                signal.alarm(0)
+                signal.signal(signal.SIGALRM, old_handler)
+            if ms is not None and (len(ms) != npet or any(len(x) != mpet for x in ms) or
+                                   (npet > 1 and len(set.intersection(*map(set, ms))) != ncore)):
                 bad("sunflower", (npet, ncore, mpet), f"petals {ms}")
         # simplicial complexes
         try:
